@@ -557,7 +557,7 @@ def _chop(frame: Subframe, time: sc.Variable, close_to_open: bool) -> Subframe |
         if inside_i != inside_j:
             # Intersection
             t = (time - frame.time[i]) / (frame.time[j] - frame.time[i])
-            v = (1 - t) * frame.wavelength[i] + t * frame.wavelength[j]
+            v = frame.wavelength[i] + t * (frame.wavelength[j] - frame.wavelength[i])
             output.append((time, v))
     if not output:
         return None
